@@ -75,19 +75,27 @@ let parse_leaf (tok : string) : item =
     else IFloat (w, List.map z_of_string (split_on ',' body))
   | _ -> failwith ("leaf kind: " ^ tok)
 
-(* parse one item from a token list; returns (item, remaining tokens) *)
-let rec parse_item (toks : string list) : item * string list =
+(* parse one tree from a token list; returns (citem, remaining tokens). A tree without decoded
+   ("R:") parts is CPlain; "R:<hex>" is what the model's Decode returns on those bytes. *)
+let rec parse_item (toks : string list) : citem * string list =
   match toks with
   | [] -> failwith "parse_item: end"
-  | "E" :: tl -> (IEmpty, tl)
+  | "E" :: tl -> (CPlain IEmpty, tl)
+  | t :: tl when t.[0] = 'R' ->
+    let bytes = zbytes_of_hex (String.sub t 2 (String.length t - 2)) in
+    (match decode_c bytes with
+     | Some c -> (c, tl)
+     | None -> failwith "R: bytes do not decode in the model")
   | t :: tl when t.[0] = 'L' ->
     let n = int_of_string (String.sub t 1 (String.length t - 1)) in
     let rec kids k toks acc =
       if k = 0 then (List.rev acc, toks)
       else let (c, toks') = parse_item toks in kids (k - 1) toks' (c :: acc) in
     let (cs, tl') = kids n tl [] in
-    (IList cs, tl')
-  | t :: tl -> (parse_leaf t, tl)
+    if List.for_all (function CPlain _ -> true | _ -> false) cs
+    then (CPlain (IList (List.map (function CPlain x -> x | _ -> assert false) cs)), tl')
+    else (CList cs, tl')
+  | t :: tl -> (CPlain (parse_leaf t), tl)
 
 let quiet32 (u : int) : int =
   if u land 0x7f800000 = 0x7f800000 && u land 0x007fffff <> 0 then u lor 0x00400000 else u
@@ -134,8 +142,9 @@ let check _ln line =
   | [lhs; mid; obs] when String.length lhs > 1 && lhs.[0] = 'Q' ->
     (match split_ws lhs with
      | "Q" :: toks ->
-       let (x, r1) = parse_item toks in
-       let (y, r2) = parse_item (split_ws mid) in
+       let (cx, r1) = parse_item toks in
+       let (cy, r2) = parse_item (split_ws mid) in
+       let x = erase cx and y = erase cy in
        if r1 <> [] || r2 <> [] then Some "trailing tokens in tree"
        else
          let m = string_of_bool01 (equal x y) in
@@ -146,8 +155,32 @@ let check _ln line =
   | [lhs; mid; obs_tree] ->
     (match split_ws lhs with
      | "T" :: toks ->
-       let (x, rest) = parse_item toks in
-       if rest <> [] then Some "trailing tokens in tree" else begin
+       let (cx, rest) = parse_item toks in
+       if rest <> [] then Some "trailing tokens in tree" else
+       let mixed = (match cx with
+        | CPlain _ -> None
+        | _ ->
+          (* a tree with decoded children: bytes, length, round trip through the mixed model *)
+          (match split_ws mid with
+           | [err; enclen; bytes; dec; equal_] ->
+             if err = "1" then Some "impl: constructor error on a tree with decoded children"
+             else if not (wf_c cx) then Some "model: tree with decoded children is not well-formed"
+             else begin
+               let enc = encode_c cx in
+               let (m_dec, m_equal, m_tree) =
+                 match decode enc with
+                 | Ok (y, []) -> ("ok", string_of_bool01 (equal (erase cx) y), digest (show_string y))
+                 | Ok (_, _) -> ("trailing", "0", "-")
+                 | Err _ -> ("err", "0", "-") in
+               if hex_digest enc <> bytes then Some (Printf.sprintf "ToBytes (decoded children): model=%s impl=%s" (hex_digest enc) bytes)
+               else if z_to_string (encoded_len_c cx) <> enclen then Some "EncodedLen (decoded children) differs"
+               else if m_dec <> dec || m_equal <> equal_ || m_tree <> obs_tree then
+                 Some (Printf.sprintf "round trip (decoded children): model=%s/%s/%s impl=%s/%s/%s" m_dec m_equal m_tree dec equal_ obs_tree)
+               else None
+             end
+           | _ -> Some "unparsable observation")) in
+       if (match cx with CPlain _ -> false | _ -> true) then mixed else begin
+         let x = erase cx in
          let model_err = not (ctor_ok x) in
          match split_ws mid with
          | [err; enclen; bytes; dec; equal_] ->
